@@ -86,6 +86,19 @@ def gen_case(rng):
     rcalled = rng.random() < 0.55
     calling, k1 = gen_field(rng, BASE)
     called, k2 = gen_field(rng, OWN)
+    if req and rng.random() < 0.14:
+        # a proper fragment of a listed title, or of the list rendered as text (any separator):
+        # list membership, not containment, is what the policy means
+        titles = [t.strip() for t in req]
+        joined = rng.choice([b", ", b",", b" ", b"\\", b"', '"]).join(titles)
+        src = rng.choice(titles + [joined, joined])
+        i = rng.randrange(0, len(src))
+        j = rng.randrange(i + 1, len(src) + 1)
+        frag = src[i:j].strip()[:16]
+        if frag and frag not in titles:
+            room = 16 - len(frag)
+            left = min(rng.choice([0, 0, 1]), room)
+            calling, k1 = b" " * left + frag + b" " * (room - left), "fragment-of-list"
     if rng.random() < 0.45:
         ident = None
     else:
